@@ -111,6 +111,10 @@ struct Explorer {
             GUARD_LEAVE(); n++; ctx.progress++;
             long ch = data.changed(); if (ch >= 0) { ctx.violation("", "sweep`" + specs[i].enc(), fmt("a byte of the library's writable data changed (offset %ld of %zu bytes) during %s: the library keeps mutable global/static state", ch, data.total, specs[i].show().c_str())); data.restore(); }
         }
+        // the remaining entry points that take no URI: completing and testing a manager must not leave anything behind in the library either
+        if (ctx.worker == 0) { data.restore(); Ledger be; UriMemoryManager backend = be.mm, done; backend.calloc = 0; backend.realloc = 0; backend.reallocarray = 0;
+            int r1 = uriCompleteMemoryManager(&done, &backend); int r2 = r1 == URI_SUCCESS ? uriTestMemoryManager(&done) : -1; (void)r2; n++;
+            long ch = data.changed(); if (ch >= 0) { ctx.violation("", "sweepmm`-`-", fmt("a byte of the library's writable data changed (offset %ld of %zu bytes) in uriCompleteMemoryManager / uriTestMemoryManager: the library keeps mutable global/static state", ch, data.total)); data.restore(); } }
         auto parse_one = [&](const Str &t) { UriUriA u; UriUriW w; const char *e; const wchar_t *we; std::wstring wt = widen<wchar_t>(t); uriParseSingleUriExA(&u, t.data(), t.data() + t.size(), &e); uriFreeUriMembersA(&u); uriParseSingleUriExW(&w, wt.data(), wt.data() + wt.size(), &we); uriFreeUriMembersW(&w); n++;
             long ch = data.changed(); if (ch >= 0) { ctx.violation("", "sweep`0`" + t + "``0`0", "a byte of the library's writable data changed while parsing '" + esc(t) + "': the library keeps mutable global/static state"); data.restore(); } };
         brute_force_classes(ctx, 4, [&](const char *p, int len, int) { parse_one(Str(p, len)); });
@@ -143,6 +147,9 @@ void run(Ctx &ctx) {
 }
 void replay(Ctx &ctx, const Str &enc) {
     std::vector<Str> p = split(enc, '`'); Local lc;
+    if (!p.empty() && p[0] == "sweepmm") { DataRegions &data = g_pristine; data.restore(); Ledger be; UriMemoryManager backend = be.mm, done; backend.calloc = 0; backend.realloc = 0; backend.reallocarray = 0;
+        if (uriCompleteMemoryManager(&done, &backend) == URI_SUCCESS) uriTestMemoryManager(&done);
+        if (data.changed() >= 0) ctx.violation("", enc, "a byte of the library's writable data changed in uriCompleteMemoryManager / uriTestMemoryManager: the library keeps mutable global/static state"); return; }
     if (p.size() >= 6 && p[0] == "sweep") {       // re-run the sweep call alone and compare the data sections
         ScnSpec sp; if (!ScnSpec::dec(p, 1, sp)) return; DataRegions &data = g_pristine; Mem mem(1); ArenaMM ro(64); int sig;
         if ((sig = GUARD_ENTER()) != 0) { ctx.violation("", enc, fmt("%s during the static-state sweep", signame(sig))); return; }
